@@ -651,7 +651,7 @@ def documents_campaign(ctx, out):
             if km is not None and k % 2 == 0:
                 vm = {"type": ["int", "tuple", "Item", "EqObj"]}
                 if typed:
-                    vm["kind"] = ["a", "b", "child"]
+                    vm["kind"] = ["a", "b", "child", "c", "d"]
             doc = C12.encode(desc, typed, km, vm, {"who": "c03-documents"})
             mode = "o" if objs else ("str" if typed else "none")
             base = dict(campaign="documents", route="load", typed=typed, mode=mode, doc=doc, mutations=[],
